@@ -60,6 +60,14 @@ func (i *IFunc) Type() types.Type {
 		if !ok {
 			panic(fmt.Errorf("invalid resolver type of %q; expected *types.PointerType, got %T", i.Ident(), i.Resolver.Type()))
 		}
+		// The type of an indirect function is the type of the function pointer
+		// that its resolver returns (`@f = ifunc T, T* ()* @resolver` has type
+		// `T*`), not the type of the resolver.
+		if sig, ok := typ.ElemType.(*types.FuncType); ok {
+			if ret, ok := sig.RetType.(*types.PointerType); ok {
+				typ = ret
+			}
+		}
 		i.Typ = typ
 	}
 	return i.Typ
